@@ -43,6 +43,59 @@ const META_RICH: &[&str] = &[
     "ref", "@a{1}", "--", "[-", "-]", "\\", "=", ">", "|", "é", "[", "]", "- x", "\"", "{", "}", "components",
 ];
 
+/// whole lines; sequences of them below each kind of document head exercise where `>>` entries are recognised
+/// by the two scanners (after blank lines, indented, directly above step text, below a front matter, bracketed keys)
+const LINES: &[&str] = &[
+    ">> k: v\n", ">> [mode]: steps\n", ">> [lang]: es\n", ">> [duplicate]: ref\n", ">> [mode]: text\n", "  >> k2: v\n", "\t>> k3: v\n",
+    ">> servings: 2\n", ">> time: 1h\n", "step @a{1}\n", "\n", "-- c\n", "[- c -]\n", "= sec\n", "> para\n", ">> k: v2", ">> k:\n", ">>: v\n",
+    "text >> k4: v\n", ">> a: b: c\n", ">> k: v -- c\n", ">> k [- c -]: v\n", ">> k5: v\r\n", "  \n",
+];
+const HEADS: &[&str] = &["", "---\ntitle: x\n---\n", "---\ntitle: x\nservings: 3\n---\n\n", "\n---\nt: 1\n---\n"];
+
+fn line_family(ctx: &mut Ctx, ps: &mut Parsers, sample: &[u32], all: &[u32]) {
+    use crate::gen::alphabet;
+    let maxlen = if ctx.is_thorough() { 4 } else { 3 };
+    let total = alphabet::count_upto(LINES.len(), maxlen);
+    ctx.notes.insert("line_sequences".into(), total.into());
+    let mut s = String::new();
+    let mut idx = ctx.shard as u64;
+    let thorough = ctx.is_thorough();
+    while idx < total {
+        alphabet::nth(LINES, idx, &mut s);
+        for head in HEADS {
+            let text = format!("{head}{s}");
+            let exts: &[u32] = if thorough && text.contains('[') { all } else { sample };
+            for e in exts {
+                for conv in ["bundled", "empty"] {
+                    check_case(ctx, ps, &Case::new("lines", text.as_str(), *e, conv));
+                }
+            }
+        }
+        ctx.count("inputs_line_sequences");
+        idx += ctx.nshards as u64;
+    }
+}
+
+fn generated_recipes(ctx: &mut Ctx, ps: &mut Parsers, sample: &[u32]) {
+    use crate::gen::recipe::{self as g, feat, GenOpts};
+    let n = ctx.budget(3_000, 400_000);
+    for i in 0..n {
+        let seed = ctx.rng.next();
+        let mut r = crate::core::Rng::new(seed);
+        let opts = match i % 3 {
+            0 => GenOpts::extended(),
+            1 => GenOpts::canonical(),
+            _ => GenOpts::core(),
+        };
+        let spec = g::gen_spec(&mut r, &opts);
+        let text = g::spell(&spec, seed, feat::ALL, 1 + (i % 3) as u32).text;
+        for e in sample {
+            check_case(ctx, ps, &Case::new("g1", text.as_str(), *e, if e & 1 == 0 { "bundled" } else { "empty" }));
+        }
+        ctx.count("inputs_generated_recipes");
+    }
+}
+
 pub fn run(ctx: &mut Ctx) {
     let mut ps = Parsers::new();
     let subsets = all_extension_subsets();
@@ -57,6 +110,8 @@ pub fn run(ctx: &mut Ctx) {
     };
     let all: Vec<u32> = subsets.iter().map(|e| e.bits()).collect();
     let thorough = ctx.is_thorough();
+    line_family(ctx, &mut ps, &sample, &all);
+    generated_recipes(ctx, &mut ps, &sample);
     let p = G2 {
         exh_quick: 3,
         exh_thorough: 4,
